@@ -20,6 +20,8 @@ fn(WB + ".__init__", params={"max_length": "int"},
 fn(WB + ".extend", params={"event": "obj wsproto.events:TextMessage | obj wsproto.events:BytesMessage"},
    requires=[("extend.pre.same-type", "implies(self.value is not None, isinstance(self.value, StringIO) == isinstance(event, TextMessage))")],
    ensures=[("C10.buffer.extend", "self.length == old(self.length) + len(event.data) and self.length <= self.max_length and self.value is not None", "C10"),
+            # the fragment is appended to what was accumulated (same payload, in order)
+            ("C10.buffer.content", "self.value.content == cat(old(self.value).content, event.data) if old(self.value) is not None else self.value.content == event.data", "C10"),
             ("C10.buffer.type", "isinstance(self.value, StringIO) == (isinstance(event, TextMessage) if old(self.value) is None else isinstance(old(self.value), StringIO))", "C10")],
    # the buffer stays over the limit after the error: every later fragment is refused as well, so
    # nothing of this or a later message can be delivered (C10)
@@ -65,7 +67,16 @@ fn(HK + ".is_valid", params={}, returns="bool", modifies=[], effect="atomic",
 fn(HK + ".accept", params={"subprotocol": "none | str", "additional_headers": "anyhdr"}, exceptional="app",
    returns="tuple(int;hdrs;obj M_ws)", modifies=["self.accepted"],
    raises={"Exception": {"ensures": [("C11.accept.rejected-unchanged", "self.accepted == old(self.accepted)", "C11")]}},
-   loops={0: {"locals": {"name": "anyhdr", "value": "anyhdr", "headers": "hdrs"}}},
+   loops={0: {"locals": {"name": "anyhdr", "value": "anyhdr", "headers": "hdrs"},
+              # what the handshake answer carries when the application's extra headers are about to be
+              # added (that the loop then only appends is by inspection: headers.append is its only statement
+              # besides a raise)
+              "entry_ensures": [
+                  ("C11.accept.token", "implies(self.key is not None, any(h[0] == b'sec-websocket-accept' and h[1] == generate_accept_token(self.key) for h in headers))", "C11"),
+                  ("C11.accept.subprotocol-header", "implies(subprotocol is not None and is_ascii(subprotocol), headers[0] == (b'sec-websocket-protocol', subprotocol.encode()))", "C11"),
+                  ("C11.accept.upgrade-headers", "implies(self.http_version == '1.1', any(h[0] == b'upgrade' and h[1] == b'WebSocket' for h in headers) and any(h[0] == b'connection' and h[1] == b'Upgrade' for h in headers))", "C11"),
+              ],
+              }},
    ensures=[
        ("C11.accept.status", "result[0] == (101 if self.http_version == '1.1' else 200)", "C11"),
        ("C11.accept.accepted", "self.accepted", "C11"),
@@ -183,7 +194,18 @@ fn(WS + ".handle",
 fn(WS + "._handle_events", params={}, inline=True, task="reader",
    loops={0: {"invariant": [("ws.events.loop", "has(self, 'connection') and has(self, 'scope') and has(self, 'start_time') and has(self, 'handshake') and self.g_app_started and value_of(self, 'handshake').accepted"),
        ("ws.events.loop.buffer", "(self.buffer.value is None) == (value_of(self, 'connection').cur_type == 0) "
-        "and implies(self.buffer.value is not None, isinstance(self.buffer.value, StringIO) == (value_of(self, 'connection').cur_type == 1))", "C10,C04")]}},
+        "and implies(self.buffer.value is not None, isinstance(self.buffer.value, StringIO) == (value_of(self, 'connection').cur_type == 1))", "C10,C04")],
+     "iter_ensures": [
+       # C10: a message over the limit closes with 1009 (the iteration ends in `break`)
+       ("C10.too-big-closes-1009", "implies(self.g_too_big and isinstance(event, (TextMessage, BytesMessage)), "
+        "trace_any('ws', 'x', isinstance(x, CloseConnection) and x.code == CloseReason.MESSAGE_TOO_BIG) or n_emitted('ws_refused') >= 1)", "C10"),
+     ],
+     "body_ensures": [
+       # C10: every ping is answered by a pong with the same payload
+       ("C10.ping-pong", "implies(isinstance(event, Ping), (n_emitted('ws') == 1 and isinstance(emitted('ws')[0], lib_wsproto.events.Pong) and emitted('ws')[0].payload == event.payload) or n_emitted('ws_refused') >= 1)", "C10"),
+       # C10: a finished message is delivered once, a fragment that does not finish one is not
+       ("C10.deliver-once", "implies(isinstance(event, (TextMessage, BytesMessage)), n_emitted('puts') == (1 if event.message_finished else 0))", "C10"),
+     ]}},
    props=("C10",))
 
 fn(WS + ".app_send", params={"message": "none | msg(headers:short)"}, task="app", exceptional="app",
@@ -215,6 +237,18 @@ fn(WS + ".app_send", params={"message": "none | msg(headers:short)"}, task="app"
        # C10: messages the application sends keep their type and payload
        ("C10.send", "implies(not old(self.closed) and message is not None and message['type'] == 'websocket.send' and n_emitted('ws') == 1, "
         "(isinstance(emitted('ws')[0], BytesMessage) == (has_key(message, 'bytes') and not tagis(message.get('bytes'), 'none'))))", "C10"),
+       # C11: the HTTP-response extension gives exactly that response: the head with the status and
+       # the (validated) headers of websocket.http.response.start, then the body chunks, then the end
+       ("C11.denial.head", "implies(not old(self.closed) and message is not None and message['type'] == 'websocket.http.response.body' and old(self.state) == ASGIWebsocketState.HANDSHAKE, "
+        "n_emitted('sent') >= 1 and isinstance(emitted('sent')[0], Response) and emitted('sent')[0].headers == call_result('build_and_validate_headers') "
+        "and implies(tagis(value_of(old(self), 'response')['status'], 'int'), emitted('sent')[0].status_code == value_of(old(self), 'response')['status']))", "C11"),
+       ("C11.denial.end", "implies(not old(self.closed) and message is not None and message['type'] == 'websocket.http.response.body' and old(self.state) in (ASGIWebsocketState.HANDSHAKE, ASGIWebsocketState.RESPONSE), "
+        "last_is('sent', EndBody) == (not truthy(message.get('more_body', False))) and (self.state == ASGIWebsocketState.HTTPCLOSED) == (not truthy(message.get('more_body', False))))", "C11"),
+       ("C10.send.bytes", "implies(n_emitted('ws') == 1 and isinstance(emitted('ws')[0], BytesMessage) and not old(self.closed) and message is not None and message['type'] == 'websocket.send' and tagis(message['bytes'], 'bytes'), "
+        "emitted('ws')[0].data == message['bytes'])", "C10"),
+       ("C10.send.text", "implies(n_emitted('ws') == 1 and isinstance(emitted('ws')[0], TextMessage) and not old(self.closed) and message is not None and message['type'] == 'websocket.send', "
+        "emitted('ws')[0].data == message['text'])", "C10"),
+       ("C10.send.one-frame", "implies(not old(self.closed) and message is not None and message['type'] == 'websocket.send', n_emitted('ws') + n_emitted('ws_refused') == 1)", "C10"),
        ("C02.ws.sid", "trace_all('sent', 'x', x.stream_id == self.stream_id)", "C02"),
    ],
    props=("C03", "C05", "C10", "C11", "C12"))
